@@ -67,7 +67,8 @@ DoneStep(m, e, d, l) ==
                 ELSE m0
         \* the corresponding error
         m2 == IF r.kind \in {"cmd", "restart", "read", "empty"} /\ d.res # "ok" /\
-                   (\/ e.k = "rx" /\ Iin2Err(e.rx.iin) /\ d.res # "RejectedByIin2"
+                   \* (the answer of an association removed meanwhile completes the request with NoSuchAssociation)
+                   (\/ e.k = "rx" /\ Iin2Err(e.rx.iin) /\ d.res \notin {"RejectedByIin2", "NoSuchAssociation"}
                          /\ Answers(m.out, [e.rx EXCEPT !.iin.param = FALSE, !.iin.nofn = FALSE, !.iin.unk = FALSE])
                     \/ e.k = "adv" /\ d.res # "ResponseTimeout"
                     \/ e.k = "disable" /\ d.res # "Disabled")
